@@ -59,7 +59,7 @@ def _worker(check, tier, w, nw, deadline, q):
         st = {
             "specs": 0, "evaluations": 0, "nontrivial": 0, "outcomes": {}, "failures": [],
             "fail_count": 0, "known": {}, "samples": [], "capped": False, "restarts": 0,
-            "classes": {}, "extra": {}, "last_index": -1,
+            "classes": {}, "extra": {}, "last_index": -1, "known_keys": {},
         }
         rn = R.Runner(build=check.build_kind, horizon_ms=check.horizon_ms)
         pending = []  # (index, spec, ctx, ncases)
@@ -95,6 +95,10 @@ def _worker(check, tier, w, nw, deadline, q):
                         st["extra"][k2] = st["extra"].get(k2, 0) + n2
                 if len(st["samples"]) < 3 and (st["specs"] % 97 == 1):
                     st["samples"].append({"spec": check.describe(spec), "cases": _trim_cases(cases_for(idx)), "observed": [_trim_res(r) for r in rs]})
+                if not v.ok and v.finding:
+                    key = apply_frozen(check, spec, v)
+                    if v.finding:
+                        st["known_keys"].setdefault(v.finding, []).append(key)
                 if not v.ok:
                     if v.finding:
                         kf = st["known"].setdefault(v.finding, {"count": 0, "example": None})
@@ -144,6 +148,20 @@ def _worker(check, tier, w, nw, deadline, q):
         q.put((w, {"error": traceback.format_exc()}))
 
 
+def apply_frozen(check, spec, v):
+    """a failure inside the region of a known finding is attributed to it only if this very input is among the recorded failing inputs"""
+    key = spec_key(check, spec)
+    frozen = getattr(check, "frozen", None)
+    if v.finding and frozen is not None and key not in frozen.get(v.finding, ()):
+        v.reason = "matches the guard of %s but this input is not among its recorded failing inputs (known_regions): %s" % (v.finding, v.reason)
+        v.finding = None
+    return key
+
+
+def spec_key(check, spec):
+    return hashlib.sha1(check.describe(spec).encode("utf8", "replace")).hexdigest()[:12]
+
+
 def _trim(s, n=600):
     return s if len(s) <= n else s[:n] + "...[%d more]" % (len(s) - n)
 
@@ -174,6 +192,9 @@ def explore(check, tier, cap_s=None, nproc=None):
     nproc = nproc or NPROC
     t0 = time.time()
     deadline = (t0 + cap_s) if cap_s else None
+    if not os.environ.get("VERIF_FREEZE") and not hasattr(check, "frozen"):
+        from . import report as _report
+        check.frozen = _report.load_frozen(check.id)
     ctx = mp.get_context("fork")
     q = ctx.Queue()
     procs = [ctx.Process(target=_worker, args=(check, tier, w, nproc, deadline, q)) for w in range(nproc)]
@@ -200,6 +221,8 @@ def explore(check, tier, cap_s=None, nproc=None):
         for k, v in st["extra"].items():
             merged["extra"][k] = merged["extra"].get(k, 0) + v
         merged["failures"].extend(st["failures"])
+        for fid, ks in st.get("known_keys", {}).items():
+            merged.setdefault("known_keys", {}).setdefault(fid, []).extend(ks)
         for fid, kf in st["known"].items():
             m = merged["known"].setdefault(fid, {"count": 0, "example": None})
             m["count"] += kf["count"]
